@@ -10,7 +10,7 @@ cmake -G Ninja -S . -B _b -DBUILD_TESTS=ON -DBUILD_EXAMPLE=OFF -Wno-dev >/dev/nu
 T=$(cd _b && ctest 2>&1 | grep -c "100% tests passed")
 mkdir -p mutant; cp $SRC/demo.cpp mutant/
 [ -f $SRC/run.sh ] && cp $SRC/run.sh mutant/
-sed -i "s#/tmp/mut[0-9]*_[A-Za-z0-9]*#$W#g" mutant/demo.cpp mutant/run.sh 2>/dev/null
+sed -i "s#/tmp/mut[0-9A-Z]*_[A-Za-z0-9]*#$W#g" mutant/demo.cpp mutant/run.sh 2>/dev/null
 g++ -std=c++17 -I$W/include mutant/demo.cpp -L$W/_b -lezc3d -Wl,-rpath,$W/_b -o mutant/demo 2>/dev/null || { echo "RESULT $N: demo does not compile"; exit 1; }
 (cd mutant && timeout 600 ./demo >/tmp/confirm_$N.with.log 2>&1); WITH=$?
 git apply -R $SRC/patch.diff && cmake --build _b >/dev/null 2>&1
